@@ -313,3 +313,80 @@ Fixpoint exec (fuel : nat) (c : stmt) (s : state) {struct c} : state * outcome :
       end
   | SUnmodelled => (s, ORaise XOther)
   end.
+
+(* ---------------- the effects of a run on the file, in program order ----------------
+   [effects fuel c s] lists what running c from s does TO THE FILE: each write with the position it goes to, each
+   truncate with the new length.  It follows [exec] step by step (the states in between are exec's), and emits an
+   effect exactly where exec changes [file].  Replaying the effects reproduces the file exec ends with
+   (Proofs/UKVEffects.v: effects_replay).  The crash images of a run are the file after any number of complete effects
+   plus any proper prefix of the bytes of the next write. *)
+Inductive effect := EW (pos : N) (b : bytes) | ET (n : N).
+
+Fixpoint wloop_eff (ec eb : state -> state * outcome) (fc fb : state -> list effect) (x : string) (n : nat) (s : state) : list effect :=
+  match n with
+  | O => []
+  | S n' =>
+      let '(s1, o) := ec s in
+      fc s ++
+      match o with
+      | ONormal =>
+          match lookup_env (locals s1) x with
+          | Some v =>
+              if truthy v then
+                let '(s2, o2) := eb s1 in
+                fb s1 ++ match o2 with ONormal => wloop_eff ec eb fc fb x n' s2 | _ => [] end
+              else []
+          | None => []
+          end
+      | _ => []
+      end
+  end.
+
+Fixpoint effects (fuel : nat) (c : stmt) (s : state) {struct c} : list effect :=
+  match c with
+  | SSeq a b => let '(s1, o) := exec fuel a s in
+                effects fuel a s ++ match o with ONormal => effects fuel b s1 | _ => [] end
+  | SIf cnd a b => match eval s cnd with
+                   | Val v => if truthy v then effects fuel a s else effects fuel b s
+                   | Exn _ => [] end
+  | SWhile cnd x body => wloop_eff (exec fuel cnd) (exec fuel body) (effects fuel cnd) (effects fuel body) x fuel s
+  | SWrite e => if s_closed (strm s) then [] else
+                match eval s e with
+                | Val (VBytes b) => if s_wr (strm s) then [EW (s_pos (strm s)) b] else []
+                | _ => [] end
+  | STruncate e => if s_closed (strm s) then [] else
+                   match eval s e with
+                   | Val (VInt n) => if s_wr (strm s) then [ET n] else []
+                   | _ => [] end
+  | SCall body => effects fuel body s
+  | STryElse body handler els =>
+      let '(s1, o) := exec fuel body s in
+      effects fuel body s ++
+      match o with
+      | ORaise _ => effects fuel handler s1
+      | ONormal => effects fuel els s1
+      | _ => []
+      end
+  | _ => []
+  end.
+
+Definition apply_effect (f : bytes) (e : effect) : bytes :=
+  match e with
+  | EW p b => write_at f p b
+  | ET n => firstn (N.to_nat n) f ++ repeat 0 (N.to_nat n - List.length f)
+  end.
+Definition replay (f : bytes) (l : list effect) : bytes := fold_left apply_effect l f.
+
+(* the effects are writes only, each at the position where the previous one ended, starting at e: together they append [Some bytes] *)
+Fixpoint appended (e : N) (l : list effect) : option bytes :=
+  match l with
+  | [] => Some []
+  | EW p b :: l' => if p =? e then match appended (e + len b) l' with Some r => Some (b ++ r) | None => None end else None
+  | ET _ :: _ => None
+  end.
+
+(* img is a crash image of running the effects l on f: some effects complete, then possibly a proper prefix of the next write *)
+Inductive is_image : bytes -> list effect -> bytes -> Prop :=
+| img_here f l : is_image f l f
+| img_step f e l img : is_image (apply_effect f e) l img -> is_image f (e :: l) img
+| img_torn f p b l j : (j < List.length b)%nat -> is_image f (EW p b :: l) (write_at f p (firstn j b)).
